@@ -420,7 +420,13 @@ def r_objective_handed(ctx):
     ctx.floor("R-OBJ-HANDED", "optimize configurations x objective multiplicity", n, 4)
 
 
-C07_RULES = [r_direction, r_improve_loop, r_weighted, r_opt_wiring, r_objective_handed]
+def r_makespan_is_the_horizon(ctx):
+    """ObjectiveMinimizeMakespan minimises the horizon variable: that is the makespan only because every task end is asserted
+    <= the horizon variable (R-HORIZON, shared with C01 / C11)"""
+    task_rules.r_horizon(ctx)
+
+
+C07_RULES = [r_direction, r_improve_loop, r_weighted, r_opt_wiring, r_objective_handed, r_makespan_is_the_horizon]
 
 
 # ---------------------------------------------------------------------------
@@ -526,7 +532,15 @@ def r_unique_unscheduled(ctx):
     task_rules.r_task_oblig(ctx, mode="implies", rule="R-SET-ASSERTIONS", obligations=False)
 
 
-C12_RULES = [r_block_clause, r_chained_cmp, lambda ctx: r_scoped_assert(ctx), lambda ctx: r_push_pop(ctx), r_unique_unscheduled]
+def r_every_timing_admitted(ctx):
+    """'visits every distinct valid timing': nothing beyond the documented groups is asserted when the problem is handed to the
+    solver (R-STREAM-EXACT, shared with C05)"""
+    from rules import completeness
+    completeness.r_stream_exact(ctx)
+
+
+C12_RULES = [r_block_clause, r_chained_cmp, lambda ctx: r_scoped_assert(ctx), lambda ctx: r_push_pop(ctx), r_unique_unscheduled,
+             lambda ctx: r_check_fresh(ctx), r_every_timing_admitted]
 
 
 # ---------------------------------------------------------------------------
@@ -759,6 +773,62 @@ def r_scoped_assert(ctx):
     ctx.floor("R-SCOPED-ASSERT", "assertion sites in answering methods", n, 1)
 
 
+def r_check_fresh(ctx):
+    """every verdict comes from the solver: on every path of check_sat that returns, self._solver.check() was called in this
+    very call and the verdict returned is its result (no verdict cached from an earlier state of the assertion stack - the
+    stack shrinks when scopes are popped, so 'same size' or 'already proven' says nothing about the current one)"""
+    c = ctx.project.cls("SchedulingSolver")
+    fn = c.methods.get("check_sat")
+    if fn is None:
+        raise P.AnalysisError("R-CHECK-FRESH: anchor vanished: SchedulingSolver.check_sat")
+    where = "SchedulingSolver.check_sat"
+    g = C.CFG(fn)
+    checks = g.find(lambda n: C.has_call(n, "_solver.check"))
+    rets = g.find(lambda n: n.kind == "stmt" and isinstance(n.ast, ast.Return))
+    if not checks or not rets:
+        raise P.AnalysisError(f"R-CHECK-FRESH: check sites {len(checks)}, return sites {len(rets)}")
+    verdict_names = set()
+    for ch in checks:
+        verdict_names |= set(C.assigned_names(ch))
+    bad = False
+    for r in rets:
+        p_ = g.path_avoiding(g.entry, r, lambda z: z in checks)
+        if p_ is not None:
+            bad = True
+            ctx.violation("R-CHECK-FRESH", where, "verdict returned without asking the solver",
+                          f"`{r.src()[:80]}` is reachable without a call of self._solver.check() (path "
+                          f"{' -> '.join(str(x.lineno) for x in p_ if x.lineno)}): the verdict comes from somewhere else than the "
+                          f"current assertion stack", srcline(r))
+            continue
+        rv = r.ast.value
+        first = rv.elts[0] if isinstance(rv, ast.Tuple) and rv.elts else rv
+        if not (isinstance(first, ast.Name) and first.id in verdict_names):
+            bad = True
+            ctx.violation("R-CHECK-FRESH", where, "returned verdict is the result of check()",
+                          f"`{r.src()[:80]}` does not return the variable assigned from self._solver.check() ({sorted(verdict_names)})",
+                          srcline(r))
+    # the verdict variable has no other writer
+    for nm in verdict_names:
+        others = [n for n in g.nodes if nm in C.assigned_names(n) and n not in checks]
+        for o in others:
+            bad = True
+            ctx.violation("R-CHECK-FRESH", where, "verdict overwritten", f"`{o.src()[:80]}` assigns the verdict from something else than "
+                          f"self._solver.check()", srcline(o))
+    if not bad:
+        ctx.ok("R-CHECK-FRESH", f"{where}: every returned verdict is the result of a check() made in the same call",
+               sample={"check sites": [x.lineno for x in checks], "returns": [x.lineno for x in rets]})
+    # the incremental loop and solve() read verdicts through check_sat / check only
+    n = 0
+    for name in ("solve", "_solve_optimize_incremental"):
+        fn2 = c.methods.get(name)
+        if fn2 is None:
+            continue
+        g2 = C.CFG(fn2)
+        for t_ in g2.find(lambda x: x.kind == "test" and ("z3.unsat" in x.src() or "z3.unknown" in x.src() or "z3.sat" in x.src())):
+            n += 1
+    ctx.floor("R-CHECK-FRESH", "verdict tests in solve / incremental loop", n, 2)
+
+
 def r_fresh_handle(ctx):
     """initialise may be called again (explicitly, or through solve on a new solver): every path of initialize() installs a
     freshly built solver handle before it asserts the problem, so nothing (assertions, registered objectives, pareto state)
@@ -766,7 +836,7 @@ def r_fresh_handle(ctx):
     r_opt_wiring(ctx)
 
 
-C13_RULES = [r_push_pop, r_scoped_assert, r_init_once, r_solver_readonly, r_model_typestate, r_block_clause, r_fresh_handle]
+C13_RULES = [r_push_pop, r_scoped_assert, r_init_once, r_solver_readonly, r_model_typestate, r_block_clause, r_fresh_handle, r_check_fresh]
 
 
 # ---------------------------------------------------------------------------
@@ -1045,4 +1115,11 @@ def r_core_map(ctx):
     _core_reader(ctx)
 
 
-C19_RULES = [r_core_map, r_option_noninterference, r_option_table]
+def r_conflict_attributed(ctx):
+    """a constraint can only be named as conflicting for what it asserts into its own list (that list is what initialize()
+    hands to the solver under the constraint's name): R-OWN-ASSERTIONS (shared with C10)"""
+    from rules import logic
+    logic.r_own_assertions(ctx)
+
+
+C19_RULES = [r_core_map, r_option_noninterference, r_option_table, r_conflict_attributed]
